@@ -61,6 +61,7 @@ type Profile struct {
 	SeqWeight       int
 	Quota           bool
 	SlowReads       bool          // some clients read responses slowly (response writes are seams)
+	CallerDeadlines bool          // C08: some requests arrive with a deadline of their own (300 ms), shorter than the instance's
 	WriteFaults     bool          // some clients go away while their answer is being written (a response Write fails, possibly part-way)
 	BackendAhead    time.Duration // the backend's clock runs ahead of the front ends' (clocks of two machines are never the same)
 	ReadOnlyReplica bool          // the last replica is configured read-only (it has no submission endpoints; reads must be served as anywhere else)
@@ -163,6 +164,7 @@ func (w *World) Init(s *kernel.Sim) {
 	p.Quota = t.Chance(1, 3)
 	p.SlowReads = t.Chance(1, 3)
 	p.WriteFaults = t.Chance(1, 3)
+	p.CallerDeadlines = w.mode.Prop == "C08" && t.Chance(1, 3)
 	p.ReadOnlyReplica = p.Replicas > 1 && t.Chance(1, 2)
 	p.BackendAhead = []time.Duration{0, 0, 0, 3 * time.Millisecond, 2 * time.Second, time.Hour}[t.Intn(6)]
 	p.MaxOps = t.Range(4, 28)
@@ -729,6 +731,9 @@ func (w *World) judgeSibling(op *Op) {
 func (w *World) launch(op *Op) {
 	if w.prof.SlowReads && !w.auditing && op.Method == "GET" && op.ID%2 == 0 {
 		op.SlowWrite = true
+	}
+	if w.prof.CallerDeadlines && !w.auditing && op.ID%4 == 1 {
+		op.CallerDeadline = 300 * time.Millisecond
 	}
 	if w.prof.WriteFaults && !w.auditing && op.ID%3 != 2 {
 		op.SlowWrite = true // submissions too: their answers can be cut off by a client that has gone
